@@ -30,9 +30,29 @@ func AcquireDirLock(dir string, fs vfs.FS) (*DirLock, error) {
 		return nil, err
 	}
 	lockPath := filepath.Join(dir, "LOCK")
+	// Release unlinks LOCK while it still holds the flock, so a lock obtained on a
+	// descriptor opened before that unlink refers to an orphaned inode. Re-validate
+	// that the locked descriptor is still the file at lockPath and retry otherwise.
+	for attempt := 0; attempt < dirLockMaxAttempts; attempt++ {
+		lock, stale, err := tryAcquireDirLock(dir, lockPath, fs)
+		if err != nil {
+			return nil, err
+		}
+		if !stale {
+			return lock, nil
+		}
+	}
+	return nil, fmt.Errorf("dirlock: directory %q already in use", dir)
+}
+
+const dirLockMaxAttempts = 16
+
+// tryAcquireDirLock opens and flocks lockPath once. It reports stale=true when the
+// lock was obtained on a file that is no longer linked at lockPath.
+func tryAcquireDirLock(dir, lockPath string, fs vfs.FS) (lock *DirLock, stale bool, err error) {
 	f, err := fs.OpenFileHandle(lockPath, os.O_CREATE|os.O_RDWR, 0o600)
 	if err != nil {
-		return nil, err
+		return nil, false, err
 	}
 	success := false
 	defer func() {
@@ -42,13 +62,17 @@ func AcquireDirLock(dir string, fs vfs.FS) (*DirLock, error) {
 	}()
 	fd, ok := vfs.FileFD(f)
 	if !ok {
-		return nil, fmt.Errorf("dirlock: file %q does not expose descriptor", lockPath)
+		return nil, false, fmt.Errorf("dirlock: file %q does not expose descriptor", lockPath)
 	}
 	if err := syscall.Flock(int(fd), syscall.LOCK_EX|syscall.LOCK_NB); err != nil {
 		if errors.Is(err, syscall.EWOULDBLOCK) {
-			return nil, fmt.Errorf("dirlock: directory %q already in use", dir)
+			return nil, false, fmt.Errorf("dirlock: directory %q already in use", dir)
 		}
-		return nil, err
+		return nil, false, err
+	}
+	if !sameLockFile(f, fs, lockPath) {
+		// Closing the descriptor drops the flock on the orphaned inode.
+		return nil, true, nil
 	}
 	if err := f.Truncate(0); err == nil {
 		pid := os.Getpid()
@@ -60,7 +84,20 @@ func AcquireDirLock(dir string, fs vfs.FS) (*DirLock, error) {
 		_ = f.Sync()
 	}
 	success = true
-	return &DirLock{file: f, path: lockPath, fs: fs}, nil
+	return &DirLock{file: f, path: lockPath, fs: fs}, false, nil
+}
+
+// sameLockFile reports whether the open descriptor is the file currently linked at path.
+func sameLockFile(f vfs.File, fs vfs.FS, path string) bool {
+	held, err := f.Stat()
+	if err != nil {
+		return false
+	}
+	linked, err := fs.Stat(path)
+	if err != nil {
+		return false
+	}
+	return os.SameFile(held, linked)
 }
 
 // Release unlocks the directory and removes the lock file.
@@ -69,18 +106,20 @@ func (l *DirLock) Release() error {
 		return nil
 	}
 	var firstErr error
+	// Unlink while the flock is still held: unlinking after the unlock could remove a
+	// file that another process has locked in the meantime.
+	fs := vfs.Ensure(l.fs)
+	if err := fs.Remove(l.path); err != nil && !errors.Is(err, os.ErrNotExist) {
+		firstErr = err
+	}
 	if fd, ok := vfs.FileFD(l.file); ok {
-		if err := syscall.Flock(int(fd), syscall.LOCK_UN); err != nil {
+		if err := syscall.Flock(int(fd), syscall.LOCK_UN); err != nil && firstErr == nil {
 			firstErr = err
 		}
-	} else {
+	} else if firstErr == nil {
 		firstErr = fmt.Errorf("dirlock: file %q does not expose descriptor", l.path)
 	}
 	if err := l.file.Close(); err != nil && firstErr == nil {
-		firstErr = err
-	}
-	fs := vfs.Ensure(l.fs)
-	if err := fs.Remove(l.path); err != nil && !errors.Is(err, os.ErrNotExist) && firstErr == nil {
 		firstErr = err
 	}
 	l.file = nil
